@@ -346,14 +346,27 @@ Definition item_type (it : item) : ltype :=
 Definition canon_for (fl : flags) (it : item) (s : bytes) : bytes :=
   if f_canon fl then match canonize (item_type it) s with Some c => c | None => s end else s.
 
-(* exists a node n in l with  string-value(n) op s  (the string threaded through canonization) *)
-Fixpoint cmp_set_str (fl : flags) (t : list xnode) (op : cmpop) (l : list item) (s : bytes) : bool :=
+(* exists a node n in l with  string-value(n) op s.
+   As coded (f_canon) the string is first canonized for the type of the compared node and stays so for the following
+   nodes; a relational operator converts the string to a number when the first node is compared (moveto_op_comp casts
+   the operand in place), so only the first node can canonize it *)
+Fixpoint cmp_set_str_eq (fl : flags) (t : list xnode) (op : cmpop) (l : list item) (s : bytes) : bool :=
   match l with
   | [] => false
   | it :: r =>
       let s' := canon_for fl it s in
-      cmp_str fl op (string_value fl t it) s' || cmp_set_str fl t op r s'
+      cmp_str fl op (string_value fl t it) s' || cmp_set_str_eq fl t op r s'
   end.
+
+Definition cmp_set_str (fl : flags) (t : list xnode) (op : cmpop) (l : list item) (s : bytes) : bool :=
+  if is_relational op then
+    match l with
+    | [] => false
+    | it :: _ =>
+        let x := s2n fl (canon_for fl it s) in
+        existsb (fun n => cmp_num op (s2n fl (string_value fl t n)) x) l
+    end
+  else cmp_set_str_eq fl t op l s.
 
 Definition cmp_values (fl : flags) (t : list xnode) (op : cmpop) (a b : value) : bool :=
   match a, b with
